@@ -78,12 +78,12 @@ def parseExc (s : String) : Exc :=
   match s with
   | "AttributeError" => .attributeError | "TypeError" => .typeError | "KeyError" => .keyError
   | "ValueError" => .valueError | "OverflowError" => .overflowError | "OSError" => .osError
-  | "RecursionError" => .recursionError | _ => .other
+  | "RecursionError" => .recursionError | "UnicodeEncodeError" => .unicodeEncodeError | _ => .other
 
 def excName : Exc → String
   | .attributeError => "AttributeError" | .typeError => "TypeError" | .keyError => "KeyError"
   | .valueError => "ValueError" | .overflowError => "OverflowError" | .osError => "OSError"
-  | .recursionError => "RecursionError" | .other => "other"
+  | .recursionError => "RecursionError" | .unicodeEncodeError => "UnicodeEncodeError" | .other => "other"
 
 def parseRes (j : Json) : Except String (Except Exc Text) :=
   match j.getObjVal? "ok" with
@@ -141,6 +141,14 @@ def parseLine (j : Json) : Except String Line := do
 
 def missing : Text := t "<?>"
 
+def isSurrogate (c : Nat) : Bool := 0xD800 ≤ c && c ≤ 0xDFFF
+
+def hexd (n : Nat) : Nat := if n < 10 then 48 + n else 87 + n
+
+/-- what the UTF-8 codec does with `backslashreplace`: a lone surrogate becomes the six characters `\udxxx` -/
+def bsr (s : Text) : Text :=
+  s.flatMap fun c => if isSurrogate c then [92, 117, hexd (c / 4096 % 16), hexd (c / 256 % 16), hexd (c / 16 % 16), hexd (c % 16)] else [c]
+
 def mkEnv (table : List Entry) (lines : List Line) : Env :=
   let find (v : JVal) : Option Entry := table.find? (fun e => beqV e.v v)
   { pformat := fun v => ((find v).bind (·.pformat)).getD (.ok missing)
@@ -153,7 +161,9 @@ def mkEnv (table : List Entry) (lines : List Line) : Env :=
     reprBytes := fun b => match lines.find? (fun l => rstripNl l.bytes == b) with
       | some l => l.repr
       | none => missing
-    filterDumps := fun v => ((find v).bind (·.fdumps)).getD (.ok missing) }
+    filterDumps := fun v => ((find v).bind (·.fdumps)).getD (.ok missing)
+    encodable := fun s => !s.any isSurrogate          -- a UTF-8 stream
+    backslashreplace := bsr }
 
 def textJ (s : Text) : Json := toJson s
 
